@@ -29,6 +29,13 @@ def make_cases(rng, tier, maxl):
                         sb = gen.rand_shell(rng, LB, B, nprim=rng.randint(1, 3), emin=1e-3, emax=1e6)
                         u = gen.rand_ecp(rng, L, C, nper=(1, 2), amin=1e-2, amax=1e4)
                         cases.append({"id": "w%d_o%d_%d%d%d_%d%d" % (len(cases), order, LA, LB, L, onA, onB), "extra": {"order": order}, "shells": [sa, sb], "ecps": [u]})
+                    # the same class with moderate parameters and every power of r in every channel, so that the main evaluation
+                    # path of the class (closed-form radial cases, every generated Q function) really runs
+                    C = [rng.uniform(-1, 1) for _ in range(3)]
+                    A = [c + rng.uniform(0.5, 2.0) * x for c, x in zip(C, gen.rand_dir(rng))]; B = [c + rng.uniform(0.5, 2.0) * x for c, x in zip(C, gen.rand_dir(rng))]
+                    sa = gen.rand_shell(rng, LA, A, nprim=1, emin=0.4, emax=2.5); sb = gen.rand_shell(rng, LB, B, nprim=1, emin=0.4, emax=2.5)
+                    u = {"c": C, "p": [{"n": n_, "l": l_, "a": rng.uniform(0.5, 3.0), "d": rng.uniform(0.5, 3.0)} for l_ in range(L + 1) for n_ in (0, 1, 2)]}
+                    cases.append({"id": "w%d_o%d_%d%d%d_mod" % (len(cases), order, LA, LB, L), "extra": {"order": order}, "shells": [sa, sb], "ecps": [u]})
     return cases
 
 
@@ -38,7 +45,7 @@ def run(tier, replay=None):
                        "levels) — what a theorem cannot give (uninitialised reads, stack arrays, signed overflow, NaN/Inf, termination in floating point) is explored: an "
                        "ASan+UBSan(-fno-sanitize-recover) + _GLIBCXX_ASSERTIONS build of the working tree with the per-dimension index assertions of the hooks runs "
                        "every (LA,LB,lambda_max,derivative order,A on/off centre,B on/off centre) class within MAX_L (quick: lambda sampled) with exponents 1e-3..1e6, "
-                       "distances 2e-6..60 and powers 0..2; every returned number must be finite; valgrind memcheck (uninitialised values) on a reduced sweep")
+                       "distances 2e-6..60 and powers 0..2, plus one moderate-parameter case per class with every power in every channel; every returned number must be finite; valgrind memcheck (uninitialised values) on a reduced sweep")
     ok = coq_properties(res, PID)
     if not ok:
         proof_broken(res, PID, "Properties_C11.v no longer checks")
